@@ -283,6 +283,110 @@ def _chunk(args):
     return out
 
 
+# ------------------------------------------------------------------ composition layer (SceneCache.tla)
+SC_CFG = """CONSTANTS
+  Geoms <- G2
+  Quantities <- Q3
+  MaxDepth = {depth}
+  GraphForgetsDirty = {forget}
+SPECIFICATION Spec
+{view}
+{invs}
+CHECK_DEADLOCK FALSE
+"""
+
+
+def _shadow_scene(tm, geoms, edges):
+    """Fresh scene from shadow data: geoms name -> (v, f); edges: list of (parent, node, matrix, geom or None)."""
+    s = tm.Scene()
+    objs = {n: tm.Trimesh(v.copy(), f.copy(), process=False) for n, (v, f) in geoms.items()}
+    added = set()
+    for parent, node, M, g in edges:
+        if g is not None and g in objs and g not in added:
+            s.add_geometry(objs[g], node_name=node, geom_name=g, parent_node_name=parent, transform=M.copy())
+            added.add(g)
+        elif g is not None and g in objs:
+            s.graph.update(frame_to=node, frame_from=parent, matrix=M.copy(), geometry=g)
+        else:
+            s.graph.update(frame_to=node, frame_from=parent, matrix=M.copy())
+    return s
+
+
+def _quant(s, q):
+    if s.is_empty or len(s.graph.nodes_geometry) == 0:
+        return ("empty",)
+    if q == "bounds":
+        return ("b", np.round(np.array(s.bounds), 9).tolist())
+    if q == "triangles":
+        t = np.round(np.array(s.triangles).reshape(-1, 9), 9)
+        return ("t", sorted(map(tuple, t.tolist())))
+    return ("m", round(float(s.area), 9), round(float(s.volume), 9), np.round(np.array(s.centroid), 9).tolist())
+
+
+def replay_scene_history(tm, h, rot):
+    b = tm.creation.box(extents=[2, 4, 2])
+    geoms = {"box": (np.array(b.vertices) + [1, 2, 1], np.array(b.faces)),
+             "tet": (np.array([[0, 0, 0], [2, 0, 0], [0, 4, 0], [0, 0, 2]], dtype=float), np.array([[0, 2, 1], [0, 1, 3], [1, 2, 3], [2, 0, 3]]))}
+    edges = [("world", "a", to4(GENS[1]), "box"), ("a", "b", to4(GENS[4]), "box"), ("b", "c", to4(GENS[2]), "tet")]
+    s = _shadow_scene(tm, geoms, edges)
+    nxt = 0
+    steps = []
+    for j, st in enumerate(h):
+        op = st["op"]
+        steps.append(op + (":" + st.get("q", st.get("g", "")) if ("q" in st or "g" in st) else ""))
+        try:
+            if op == "read":
+                want = _quant(_shadow_scene(tm, geoms, edges), st["q"])
+                got = _quant(s, st["q"])
+                if got != want:
+                    return {"clause": "NoStaleSceneRead:" + st["q"], "step": j, "steps": steps, "got": str(got)[:160], "want": str(want)[:160]}
+            elif op == "edit_geometry":
+                g = st["g"]
+                if g in geoms:
+                    d = np.array([0.5, 0.25, 1.0]) * (1 + (rot + j) % 3)
+                    s.geometry[g].vertices[1] += d
+                    geoms[g][0][1] += d
+            elif op == "update_edge":
+                k = (rot + j) % len(edges)
+                parent, node, _, g = edges[k]
+                M = to4(GENS[(rot + j * 3) % len(GENS)])
+                s.graph.update(frame_to=node, frame_from=parent, matrix=M)
+                edges[k] = (parent, node, M, g)
+            elif op == "add_instance":
+                name = "extra%d" % nxt
+                nxt += 1
+                g = "box" if "box" in geoms else ("tet" if "tet" in geoms else None)
+                M = to4(GENS[(rot + j) % len(GENS)])
+                if g is not None:
+                    s.graph.update(frame_to=name, frame_from="a", matrix=M, geometry=g)
+                    edges.append(("a", name, M, g))
+            elif op == "reparent":
+                k = len(edges) - 1 if len(edges) > 3 else 2
+                parent, node, M, g = edges[k]
+                newp = "world" if parent != "world" else "a"
+                s.graph.update(frame_to=node, frame_from=newp, matrix=M)
+                edges[k] = (newp, node, M, g)
+            elif op == "delete_geometry":
+                g = st["g"]
+                if g in geoms:
+                    s.delete_geometry(g)
+                    del geoms[g]
+                    edges = [(p_, n_, M_, (None if g_ == g else g_)) for p_, n_, M_, g_ in edges]
+        except BaseException as e:  # noqa
+            return {"clause": "scene_operation_raises", "step": j, "steps": steps, "exc": type(e).__name__ + ": " + str(e)[:80]}
+    return None
+
+
+def _scene_chunk(args):
+    tm = import_trimesh()
+    out = []
+    for idx, h in args:
+        f = replay_scene_history(tm, h, idx + seed())
+        if f:
+            out.append(f)
+    return out, len(args)
+
+
 def configs(tier, rs):
     shapes = [[0], [0, 0], [0, 1], [0, 0, 0], [0, 0, 1], [0, 1, 1], [0, 1, 2], [0, 0, 2]]
     gsets = [["box"], ["tet"], ["box", "tet"], ["box", "cloud"], ["sheet", "box"], ["cloud"]]
@@ -340,7 +444,28 @@ def main(argv):
             if rotated and nonuniform:
                 dev = "ScaledPerAxisUnderRotatedParent"
         V.violation(f"{c['op']}:{clause}", detail, dev)
-    cov = {"states": states, "transitions": states, "traces_validated_against_impl": len(cases),
+    # composition layer: scene cache over shared geometry and the graph's dirty memo
+    d = tlc.prepare("c10/scenecache")
+    r = tlc.must(tlc.run(d, "SceneCache", SC_CFG.format(depth=7, forget="FALSE", view="VIEW View", invs="INVARIANT NoStaleSceneRead")), "scenecache")
+    rr = tlc.run(d, "SceneCache", SC_CFG.format(depth=7, forget="TRUE", view="VIEW View", invs="INVARIANT NoStaleSceneRead"))
+    if rr.violated != "NoStaleSceneRead":
+        raise MachineryError("SceneCache self-test: forgetting the graph dirty flag was not reported")
+    depth = 4 if tier == "quick" else 5
+    r2 = tlc.must(tlc.run(d, "SceneCache", SC_CFG.format(depth=depth, forget="FALSE", view="", invs="INVARIANT EmitLeaf"), workers=1, timeout=900), "scenecache-emit")
+    hs = [h for h in r2.printed if any(x["op"] == "read" for x in h[1:])]
+    if tier == "quick" and len(hs) > 2500:
+        sel = np.random.RandomState(seed()).permutation(len(hs))[:2500]
+        hs = [hs[k] for k in sorted(sel)]
+    if len(hs) < 500:
+        raise MachineryError("too few scene-cache histories")
+    res3 = pmap(_scene_chunk, list(enumerate(hs)), chunk=60)
+    n_sc = sum(x[1] for x in res3)
+    for x in res3:
+        for f in x[0]:
+            V.violation(f["clause"], f)
+    states += r.distinct + r2.distinct
+    cov = {"states": states, "transitions": states + r.generated, "traces_validated_against_impl": len(cases) + n_sc,
+           "scene_cache_histories_replayed": n_sc,
            "configurations": len(cfgs), "cases_per_operation": byop, "rejected": len(rejects),
            "tlc_wall_s": round(wall, 1),
            "samples": [{k: cases[len(cases) // 3][k] for k in ("op", "cfg", "m", "sub")}, {k: cases[-1][k] for k in ("op", "cfg", "m", "sub")}]}
